@@ -758,7 +758,8 @@ surprising_value_table(std::move(table)),
 sliding_window(std::move(window)),
 window_offset(determine_correct_offset(lg_k, num_coupons)),
 first_interesting_column(first_interesting_column),
-kxp(kxp),
+// an image without coupons carries no HIP registers: the empty state has kxp = k, as the public constructor sets it
+kxp(num_coupons == 0 ? static_cast<double>(1 << lg_k) : kxp),
 hip_est_accum(hip_est_accum)
 {}
 
